@@ -109,16 +109,17 @@ def NOT_ (a : XExpr τ) : XExpr τ := fun s =>
   | (s1, .val v) => (s1, .val (notV v))
   | r => r
 
-/-- the scalar loop of the shared evaluator model (`Evaluator.evalSc`) on thunks: the whole value is tested -/
+/-- the loop of the shared evaluator model (`Evaluator.evalSc`) on thunks: each evaluated argument is flattened
+    and judged by `Evaluator.itemsVerdict` (generic in the truth function of the semantics) -/
 def SCs (truth : V → Option Bool) (isAnd : Bool) : List (XExpr τ) → XExpr τ
   | [] => fun s => (s, .val (.s (.bool isAnd)))
   | t :: rest => fun s =>
     match t s with
     | (s1, .val v) =>
-      if isEmptyValue v then SCs truth isAnd rest s1 else
-      (match truth v with
-       | none => (s1, .val v)
-       | some b => if b = isAnd then SCs truth isAnd rest s1 else (s1, .val (.s (.bool b))))
+      (match itemsVerdict truth isAnd (argItems v) with
+       | .neutral => SCs truth isAnd rest s1
+       | .decided b => (s1, .val (.s (.bool b)))
+       | .error e => (s1, .val e))
     | r => r
 
 end bodies
@@ -211,8 +212,9 @@ def Lx.toFx? : Lx → Option Fx
   | .if2 _ _ => none
   | .if1 _ => none
   | .andor isAnd args =>
-    -- `Fx.sc` tests whole values: a range argument (an array) is not expressible there
-    if args.isEmpty || args.any (fun a => match a with | .fx (.rng _) => true | _ => false) then none
+    -- `Fx.sc` flattens its evaluated arguments like logical.py does: range arguments are expressible;
+    -- only the `#NULL!` of an empty argument list is not (`Fx.sc b []` is the neutral element)
+    if args.isEmpty then none
     else (Lx.toFxL? args).map (Fx.sc isAnd)
   | .not a => (Lx.toFx? a).map fun a' => Fx.app 11 [a']
   | .spy _ _ => none
